@@ -59,7 +59,9 @@ func template() []tmplEntry {
 	return tmplCache
 }
 
-func isFactory(p string) bool { return p == configDir+"/factory" || strings.HasPrefix(p, configDir+"/factory/") }
+func isFactory(p string) bool {
+	return p == configDir+"/factory" || strings.HasPrefix(p, configDir+"/factory/")
+}
 
 const blacklist = configDir + "/device blacklist.txt"
 
@@ -137,7 +139,14 @@ func genW5(r *simrt.Rng) *w5Tree {
 	}
 	// user side
 	userFile := func(p string) {
-		tr.User = append(tr.User, w5File{Path: p, State: "modified", Data: []byte(fmt.Sprintf("# user file %s\ncollision_mode = \"off\"\nx = %d\n", p, r.Intn(100000)))})
+		data := []byte(fmt.Sprintf("# user file %s\ncollision_mode = \"off\"\nx = %d\n", p, r.Intn(100000)))
+		switch r.Intn(6) {
+		case 0:
+			data = []byte{} // emptied by the user
+		case 1:
+			data = []byte("\n")
+		}
+		tr.User = append(tr.User, w5File{Path: p, State: "modified", Data: data})
 	}
 	names := []string{"0_default.toml", "my keyboard.toml", "PS4_Controller.toml", "notes.txt", "a.TOML", ".hidden"}
 	for _, d := range []string{"/user/keyboard/", "/user/gamepad/"} {
